@@ -47,6 +47,8 @@ class C10(E1Check):
             "one-disp": [[("i0", "a", 1), ("i0", "a", 2), ("i0", "b", 3), ("i1", "a", 4)]],
             "burst": [[("i0", "a", 1, False), ("i0", "a", 2, False), ("i0", "a", 4, False), ("i0", "b", 6, False)]],
             "two-disp": [[("i0", "a", 1), ("i0", "b", 2)], [("i0", "a", 3), ("i1", "a", 4)]],
+            # the dispatcher waits once, then dispatches without yielding: the first events do not pass an "even" filter
+            "gated-burst": [[("i0", "a", 1, True), ("i0", "a", 3, False), ("i0", "a", 4, False), ("i0", "a", 6, False)]],
         }
         sigsets = {"a0": [("i0", "a")], "a0b0": [("i0", "a"), ("i0", "b")], "a0a1": [("i0", "a"), ("i1", "a")]}
         subs1 = []
@@ -59,6 +61,8 @@ class C10(E1Check):
                         subs1.append({"sigs": ss, "filter": flt, "k": k, "leave": leave})
         for plan in plans:
             for s in subs1:
+                if plan == "gated-burst" and (s["sigs"] != "a0" or s["filter"] not in ("even", "all") or s["k"] == 0):
+                    continue
                 for q in (1, 2):
                     progs.append({"plan": plan, "subs": [dict(s, q=q)], "wait": None})
         # two subscribers
@@ -246,7 +250,10 @@ class C10(E1Check):
                 st["blocked"]["w"] = (scope, True)
                 log("wait+")
                 rescue_if_stuck(scope, "w")
-                ev = await wait_event(signals, make_filter("w", spec["filter"]))
+                if len(signals) == 1:
+                    ev = await signals[0].wait_event(make_filter("w", spec["filter"]))  # the method form
+                else:
+                    ev = await wait_event(signals, make_filter("w", spec["filter"]))
                 st["blocked"]["w"] = (scope, False)
                 log("wait-", ev.n)
             st["blocked"]["w"] = (scope, False)
